@@ -260,13 +260,12 @@ class Run:
             # child.delete(): annotations and reference-mark-starts also delete their end mark
             end = None
             if x.tag == O + 'annotation':
-                ends = [e for e in xs if e.tag == O + 'annotation-end' and e.get(O + 'name') == x.get(O + 'name')]
+                # without a document body the end mark is looked up under the parent only
+                ends = [e for e in x.getparent().iterdescendants() if e.tag == O + 'annotation-end' and e.get(O + 'name') == x.get(O + 'name')]
                 end = ends[0] if ends else None
             elif x.tag == T + 'reference-mark-start':
-                ends = [e for e in xs if e.tag == T + 'reference-mark-end' and e.get(T + 'name') == x.get(T + 'name')]
+                ends = [e for e in x.getparent().iterdescendants() if e.tag == T + 'reference-mark-end' and e.get(T + 'name') == x.get(T + 'name')]
                 end = ends[0] if ends else None
-            if end is not None and not any(a is x.getparent() for a in end.iterancestors()):
-                end = None      # without a document body the end mark is looked up under the parent only
             if end is not None:
                 if any(a is x for a in end.iterancestors()) or any(a is end for a in x.iterancestors()):
                     return None
